@@ -206,6 +206,11 @@ func c14GenTrials(c *core.Ctx) []c14Trial {
 		}
 		trials = append(trials, t)
 	}
+	// moving-end scenario (c14mov.go): appended with ids of their own, so the trials above are what they always were
+	nm := c.N(160, 3000)
+	for i := 0; i < nm; i++ {
+		trials = append(trials, c14GenMoving(c.Rand("c14-moving", i), n+i))
+	}
 	return trials
 }
 
@@ -519,6 +524,41 @@ func runC14(c *core.Ctx) int {
 		run.Count("range_slices_requested", int64(s.Slices))
 		run.Count("corner_identical_slices_in_flight_together", int64(s.SharedOverlap))
 		run.Count("corner_slices_requested_more_than_once", int64(s.SharedRepeated))
+		if m := s.Moving; m != nil {
+			run.Count("moving_end_callers", int64(m.Callers))
+			run.Count("moving_end_cells_shared_by_callers_with_different_now", int64(m.SharedCells))
+			run.Count("moving_end_repeat_calls_that_must_be_served_from_cache", int64(m.RepeatCalls))
+			run.Count("moving_end_repeat_calls_after_earlier_caller_returned", int64(m.RepeatSequential))
+			run.Count("moving_end_repeat_calls_while_earlier_caller_still_out", int64(m.RepeatWaiting))
+			run.Count("moving_end_callers_served_answer_requested_with_another_end", int64(m.ServedOtherEnd))
+			run.Count("moving_end_requests_with_a_callers_now_as_end", int64(m.MovingEndRequests))
+			run.Count("moving_end_requests_with_aligned_end", int64(m.AlignedRequests))
+			run.Count("moving_end_slice_groups_checked_for_reuse", int64(m.SliceGroupsChecked))
+			run.Count("moving_end_slice_groups_held_by_2plus_callers", int64(m.SliceGroupsShared))
+			run.Count("moving_end_pairs_same_start_other_cell_no_demand", int64(m.OtherCellPairs))
+			run.Count("moving_end_pairs_same_grid_other_rounding_bucket_no_demand", int64(m.SameGridOtherRound))
+			for _, d := range m.EndDistance {
+				run.Distinct("moving_end_distance_between_callers_sharing_an_answer", d)
+			}
+			for _, q := range t.Questions {
+				run.Distinct("moving_end_step_s", fmt.Sprintf("%04d", q.StepS))
+				run.Distinct("moving_end_lookback_s", fmt.Sprintf("%06d", q.LookbackS))
+			}
+			nw := 0
+			for _, cl := range t.Callers {
+				if cl.Wave+1 > nw {
+					nw = cl.Wave + 1
+				}
+			}
+			switch {
+			case nw == 1:
+				run.Distinct("moving_end_schedule", "burst")
+			case nw == len(t.Callers):
+				run.Distinct("moving_end_schedule", "sequential")
+			default:
+				run.Distinct("moving_end_schedule", "waves")
+			}
+		}
 		run.Max(fmt.Sprintf("max_inflight_at_concurrency_%02d", t.Concurrency), int64(s.MaxInflight))
 		if s.Saturated {
 			run.Count(fmt.Sprintf("trials_inflight_reached_concurrency_%02d", t.Concurrency), 1)
@@ -566,11 +606,12 @@ func runC14(c *core.Ctx) int {
 	run.Extra("child_processes", agg.children)
 	run.Extra("watchdog_trials", watchdog)
 	run.Assume("request stamps: Enter after the server has read the request, Leave before it writes the first response byte, one monotonic clock; the recorded interval lies inside the client's in-flight interval, equal stamps are not an overlap")
-	run.Assume("range questions use fixed absolute times (a RangeQueryTimes whose String() is RelativeRange's), so no slice boundary depends on the wall clock")
+	run.Assume("range questions use fixed absolute times (a RangeQueryTimes whose String() is RelativeRange's), so no slice boundary depends on the wall clock; in moving trials every caller has its own fixed logical now, as RelativeRange callers arriving at different moments would")
+	run.Assume("moving trials: two successful slice requests are the same question iff same expression, step and start and their ends are the same number of whole steps after the start AND round (time.Time.Round) to the same multiple of the step; only then a second request is a violation")
 	run.Assume("cache lifetime is exercised only as 'not re-requested within a group that lives well under the 2-minute sweeper'")
 	run.Assume("requests the client aborted (sibling slice failed) are excluded from overlap and in-flight monitors; rangefail trials use count/value monitors only")
 	code := run.Finish("exploration",
-		"trial = fresh FailoverGroup of the real promapi client (1-2 upstreams, concurrency 1/2/4/16) against observation servers, 2-64 concurrent callers over 1-17 questions of all five endpoint kinds, optional scripted leading failures (HTTP 500 / bad_data), per-request server delays 0-5ms. Monitors: identical requests overlapping in the server log; in-flight sweep vs concurrency; request count per key vs 1+scripted failures; value identity (question, upstream, request ordinal); equality among callers; porcupine history check per (upstream, question); race detector and crash monitor on the child running the trial. Non-trivial = trial (by hash of its spec) in which >= 2 callers of one question were waiting while that question's first request was being served.",
+		"trial = fresh FailoverGroup of the real promapi client (1-2 upstreams, concurrency 1/2/4/16) against observation servers, 2-64 concurrent callers over 1-17 questions of all five endpoint kinds, optional scripted leading failures (HTTP 500 / bad_data), per-request server delays 0-5ms. Monitors: identical requests overlapping in the server log; in-flight sweep vs concurrency; request count per key vs 1+scripted failures; value identity (question, upstream, request ordinal); equality among callers; porcupine history check per (upstream, question); race detector and crash monitor on the child running the trial. Moving trials (appended, own ids): 1-3 multi-slice range questions, every caller with its own logical now laid out inside/across the half-step cells of the question's step grid, arriving sequentially, in waves or as one burst; monitors: a slice question (same start, end in the same cell) answered successfully reaches the server once, newest slice held belongs to the caller's own cell, equal answers among callers of one cell. Non-trivial = trial (by hash of its spec) in which >= 2 callers of one question were waiting while that question's first request was being served (moving trials: >= 2 callers of one question had their now in the same cell).",
 		core.Floors{MinEvaluations: int64(len(trials)), MinNontrivial: len(trials) / 4, MaxInconclusiveFrac: 0.02})
 	if code == core.ExitHeld && !agg.raceMode {
 		fmt.Println("INCONCLUSIVE property=C14: the harness was built without -race, the race monitor did not run")
